@@ -129,7 +129,7 @@ class C05Driver(wl.Driver):
 
     def execute(self, at, op):
         if op[0] == 'delghost':
-            e = ('ghost', op[1])
+            e = ('never', op[1])     # no other operation uses these ids
             self.mention(e)
             del self.log[:]
             self.model.trans = []
@@ -151,7 +151,8 @@ class C05Driver(wl.Driver):
 
     def model_process(self, rec):
         m = self.model
-        if rec['ghost'] and isinstance(rec['exc'], KeyError):
+        if (rec['ghost'] and isinstance(rec['exc'], KeyError)
+                and rec['exc'].args and rec['exc'].args[0] in self.ghost_pending):
             # pinned by the suite: the frame may fail; which of the other
             # pending entities were flushed before the failure is not stated
             self.res.stats['dontcare_ghost_frame'] += 1
@@ -164,8 +165,8 @@ class C05Driver(wl.Driver):
                     m.detach_all(e)
                     m.pending.discard(e)
             rec['ghost_failed'] = True
-            # at least one invalid mark was consumed by the failing frame
-            self.ghost_pending.pop()
+            # the invalid mark named by the KeyError was consumed
+            self.ghost_pending.discard(rec['exc'].args[0])
         else:
             m.process()
             self.ghost_pending.clear()
